@@ -61,7 +61,7 @@ def run_verus(verif, built, tag, extra_args, use_cache=True, timeout=3000):
 
 
 def parse_output(built, stdout, stderr):
-    res = {'errors': [], 'hard_errors': [], 'fn_times': {}, 'verus': None, 'summary': None, 'smt_ms': None}
+    res = {'errors': [], 'hard_errors': [], 'fn_times': {}, 'fn_ok': [], 'verus': None, 'summary': None, 'smt_ms': None}
     try:
         j = json.loads(stdout)
     except Exception:
@@ -75,6 +75,7 @@ def parse_output(built, stdout, stderr):
             res['total_ms'] = t['total']
             for mod in t['smt']['smt-run-module-times']:
                 for fb in mod.get('function-breakdown', []):
+                    res['fn_ok'].append((fb['function'], fb['success']))
                     res['fn_times'][fb['function']] = {'ms': fb['time'], 'rlimit': fb['rlimit'], 'success': fb['success']}
         except Exception:
             pass
